@@ -79,6 +79,13 @@ def check_case(R, case, channels):
         m2 = build_model(start, stop, dt)
         d = exact(list(m2.stocks["s"].plot(return_df=True).index), exp); R.add("label_sequences_compared")
         if d: bad("Element.plot(return_df=True).index", d)
+        # 3b. a plot on a grid of its own: the labels are that grid (every second point of the model's), not the model's
+        if len(exp) >= 3:
+            d = exact(list(m2.stocks["s"].plot(dt=2 * dt, return_df=True).index), exp[::2]); R.add("label_sequences_compared")
+            if d: bad("Element.plot(dt=2*dt, return_df=True).index", d)
+            m3 = build_model(start, stop, dt)
+            d = exact(list(m3.flows["f"].plot(starttime=exp[1], stoptime=exp[-2], return_df=True).index), exp[1:-1]); R.add("label_sequences_compared")
+            if d: bad("Element.plot(starttime=t1, stoptime=t(n-1), return_df=True).index", d)
         # 4. stepwise session: one label per step, clock ends after the stop time
         if "session" in channels:
             b.begin_session(scenarios=["base"], scenario_managers=["sm"], equations=["s"], dt=dt)
